@@ -92,6 +92,53 @@ def preprocess(src, dst):
     return recs, runs, bad
 
 
+def validate_parallel(inst, trace_path, d, chunk_runs=150, jobs=8, **kw):
+    """split a long log into chunks of runs and validate them in parallel (Trace.tla needs one TLC
+    worker per log because of its registers); the first rejecting chunk decides"""
+    import concurrent.futures
+    runs = []
+    cur = None
+    with open(trace_path) as f:
+        for line in f:
+            if line.startswith('{"') and '"ev":"reset"' in line.replace(" ", ""):
+                cur = []
+                runs.append(cur)
+            if cur is not None:
+                cur.append(line)
+    if len(runs) <= chunk_runs:
+        return validate(inst, trace_path, d, **kw)
+    chunks = [runs[i:i + chunk_runs] for i in range(0, len(runs), chunk_runs)]
+    paths = []
+    for i, ch in enumerate(chunks):
+        p = os.path.join(d, "chunk%d.ndjson" % i)
+        with open(p, "w") as f:
+            for r in ch:
+                f.writelines(r)
+        paths.append(p)
+
+    def one(i):
+        sub = os.path.join(d, "chunk%d" % i)
+        os.makedirs(sub, exist_ok=True)
+        for fn in os.listdir(d):
+            if fn.endswith(".tla"):
+                import shutil
+                shutil.copy(os.path.join(d, fn), sub)
+        return validate(inst, paths[i], sub, heap="2g", **kw)
+
+    total = {"accepted": True, "reached": 0, "total": 0, "runs": 0, "states": 0, "wall": 0.0, "bad": []}
+    with concurrent.futures.ThreadPoolExecutor(max_workers=jobs) as ex:
+        for v in ex.map(one, range(len(chunks))):
+            total["total"] += v.get("total", 0)
+            total["runs"] += v.get("runs", 0)
+            total["states"] += v.get("states", 0) or 0
+            total["wall"] = max(total["wall"], v.get("wall", 0) or 0)
+            if v.get("error") or not v.get("accepted"):
+                if total["accepted"]:
+                    total.update({k: v[k] for k in v if k not in ("total", "runs", "states", "wall")})
+                    total["accepted"] = False
+    return total
+
+
 def validate(inst, trace_path, d=None, timeout=600, clients=None, invariants=(), heap="4g"):
     """returns dict(accepted, reached, total, run (id of the first unexplained run), event, wall, out)"""
     d = d or tlc.workdir("trace_" + inst["name"])
